@@ -26,7 +26,7 @@ def observable(line):
 
 
 def variants(r, role, framing, chunks, quick):
-    toks = [fg.hexs(c) for c in chunks]
+    toks = fg.tokens(r, role, chunks)
     base = f'{role} {framing} 000 ' + ' '.join(toks)
     vs = [(f'{role} {framing} 322 ' + ' '.join(toks), 'max')]
     vs.append((f'{role} {framing} {r.choice(ALL_LEVELS)} ' + ' '.join(toks), 'random-level'))
